@@ -1,6 +1,6 @@
 (* Entry points of the extracted model (what extract/main.ml calls). *)
 From Coq Require Import List NArith Bool.
-From GoSyn Require Import Token Tok Regex Scanner Render.
+From GoSyn Require Import Token Tok Regex Scanner Render Entry.
 From GoSyn.spec Require Import NumLit StrLit.
 From GoSynGen Require Import GenClasses.
 Import ListNotations.
@@ -18,3 +18,8 @@ Definition oracle_num (s : str) : N :=
 Definition oracle_rune (s : str) : N := if runelit_b s then 82 else 0.
 Definition oracle_string (s : str) : N := if stringlit_b s then 83 else 0.
 Definition esc_str (s : str) : str := esc s.
+
+Definition run_parse_file (src : str) : str := run_parse repo_uclass EFile src.
+Definition run_parse_expr (src : str) : str := run_parse repo_uclass EExpr src.
+Definition run_parse_stmt (src : str) : str := run_parse repo_uclass EStmt src.
+Definition run_parse_stmts (n : nat) (src : str) : str := run_parse repo_uclass (EStmts n) src.
